@@ -540,14 +540,20 @@ def _known(fr: Frame, name: str, e, args, kwargs, env, guard, stmt):
         return lift(lambda x, y: anf.f_sqrt(R(x).mul(R(x)).add(R(y).mul(R(y)))), a(0), a(1))
     if name in ("np.power", "math.pow"):
         return ev.arith("**", a(0), a(1))
-    if name in ("np.divide", "np.true_divide"):
-        return ev.arith("/", a(0), a(1))
-    if name == "np.multiply":
-        return ev.arith("*", a(0), a(1))
-    if name == "np.add":
-        return ev.arith("+", a(0), a(1))
-    if name == "np.subtract":
-        return ev.arith("-", a(0), a(1))
+    if name in ("np.divide", "np.true_divide", "np.multiply", "np.add", "np.subtract"):
+        opn = {"np.divide": "/", "np.true_divide": "/", "np.multiply": "*", "np.add": "+", "np.subtract": "-"}[name]
+        extra = set(kwargs) - {"where", "out"}
+        if extra:
+            return _opaque_call(fr, name, args, kwargs)
+        if "where" in kwargs or "out" in kwargs:
+            # ufunc(a, b, out=o, where=m): the operation where m holds, the content of o elsewhere (element by element)
+            m_, o_ = kwargs.get("where"), kwargs.get("out")
+            if isinstance(m_, G) and o_ is not None:
+                return mk_pw([(m_, ev.arith(opn, a(0), a(1))), (g_not(m_), o_)])
+            if m_ is None:
+                return ev.arith(opn, a(0), a(1))          # only out=: the same values, written into o
+            return _opaque_call(fr, name, args, kwargs)
+        return ev.arith(opn, a(0), a(1))
     if name == "np.dot":
         def dot(x, y):
             if isinstance(x, Vec) and isinstance(y, Vec) and len(x.items) == len(y.items):
